@@ -126,6 +126,13 @@ def run(cx):
             tk = tk_pairs.get(var_)
             r.check(st_ == tk, "emit/tick-style-matches-start-style", (em, em.func("_emit_block")), f"animation started as {st_} is ticked as {tk}")
 
+    # an animation started inside the main loop (e.g. on a button press) must be ticked as well
+    res = pe.emit_program(setup=[l2.lcd_decl("i2c")], loop=[cls["LCDTick"](name="dev"), cls["LCDAnimate"](name="dev", animation="scroll", row=0, text="H_text_text", speed_ms="H_s", loop="H_l")])
+    lp_txt = res.text[res.text.index("void loop()"):]
+    started = re.findall(r"__redu_lcd_start_\w+\((__redu_lcd_anim_dev_\d+),", lp_txt)
+    ticked = re.findall(r"__redu_lcd_tick_\w+\((__redu_lcd_anim_dev_\d+),", lp_txt)
+    r.check(sorted(started) == sorted(ticked), "emit/animation-started-in-loop-is-ticked", (em, em.func("_emit_block")), f"an animation started inside the main loop is started as {started} but the injected tick at the head of loop() advances {ticked}: the tick arm is emitted before the animate arm has registered the animation")
+
     # ---- C18-NAMES ---------------------------------------------------------------------------
     r = cx.rule("C18-NAMES", "animation names agree between host, parser and both emitter tables; every named C++ helper exists with the arity of its call; the host tick handles exactly those names", floor=12)
     hcls = hm.cls("LCD")
